@@ -3,7 +3,7 @@
 import ast
 
 from .. import astutil as A
-from ..cfg import cfg_of
+from ..cfg import cfg_of, within
 from ..dataflow import derives, expand, local_defs
 from ..loader import enclosing_stmt
 from . import helpers as H
@@ -255,6 +255,22 @@ def r17_5(ck):
         ('isnot', 'self.outer', 'None') in ct.guards(ct.node(r))
         for r in up) and all(
         ('truthy', 'self.outer') not in ct.guards(ct.node(r)) for r in me)
+    if not ok and not up:
+        # the iterative spelling: a cursor that climbs `cur = cur.outer`
+        # while there is an outer, and is returned
+        for lp in A.walk_no_nested(t.node):
+            if not isinstance(lp, ast.While):
+                continue
+            climbs = [s2 for s2 in A.walk_no_nested(lp) if isinstance(
+                s2, ast.Assign) and isinstance(s2.targets[0], ast.Name)
+                and A.unparse(s2.value) == s2.targets[0].id + '.outer']
+            if len(climbs) == 1:
+                cur = climbs[0].targets[0].id
+                tst = A.unparse(lp.test).replace(' ', '')
+                ok = tst in (cur + '.outer', cur + '.outerisnotNone') and \
+                    any(isinstance(r, ast.Return) and A.is_name(r.value, cur)
+                        and not within(r, lp)
+                        for r in A.walk_no_nested(t.node))
     ck.require(ok, 'R17.5', t, t.node.name,
                'top() is outer.top() while there is an outer, else self',
                'top() no longer walks up to the root')
